@@ -40,6 +40,17 @@ for k,v in a.items():
 json.dump({"Replace":b}, open(tmp+"/overlay.json","w"))
 PY
 fi
+if [ "$(basename $cmd)" = "vdev-c40" ] || [ "$(basename $cmd)" = "vc40" ]; then
+  VERIF_SRC_OVERRIDE="$tmp/tree" VERIF_OVERLAY_OUT="$tmp/ov" python3 tools/overlaygen_c40.py >/dev/null || { echo "overlaygen failed"; exit 3; }
+  python3 - "$tmp" <<'PY'
+import json,sys
+tmp=sys.argv[1]
+a=json.load(open(tmp+"/overlay.json"))["Replace"]; b=json.load(open(tmp+"/ov/c40/overlay.json"))["Replace"]
+for k,v in a.items():
+    if k not in b: b[k]=v
+json.dump({"Replace":b}, open(tmp+"/overlay.json","w"))
+PY
+fi
 if [ "$(basename $cmd)" = "vmapiter" ]; then
   python3 tools/overlaygen_runtime.py >/dev/null || { echo "overlaygen failed"; exit 3; }
   python3 - "$tmp" <<'PY'
@@ -53,7 +64,7 @@ fi
 go build -tags verif -overlay "$tmp/overlay.json" -o "$bin" "$cmd" 2>"$tmp/build.log" || { echo "BUILD FAILED"; tail -20 "$tmp/build.log"; exit 3; }
 [ -n "$VERIF_KEEP_BIN" ] && cp "$bin" "$VERIF_KEEP_BIN"
 mkdir -p "$tmp/root/evidence"; cp /verif/known_findings.jsonl "$tmp/root/" 2>/dev/null
-case "$(basename $cmd)" in vmc|vcoop|vevents|vmapiter|vdev-c41) args="check $id";; *) args="";; esac
+case "$(basename $cmd)" in vmc|vcoop|vevents|vmapiter|vdev-c41|vdev-c40|vc40) args="check $id";; *) args="";; esac
 out=$(VERIF_ROOT="$tmp/root" VERIF_TIER="$tier" "$bin" $args 2>&1); rc=$?
 echo "$out" | grep -E "VIOLATION|KNOWN-FINDING" | head -5
 echo "check exit=$rc"
